@@ -5,6 +5,7 @@ From Saml Require Import Base.Bytes Idp.FactTypes Gen.Facts Idp.Sso Idp.Logout I
 From Saml Require Import Idp.BuilderTypes Idp.Builder Xml.Unmarshal Idp.AuthnOf Idp.RequestsOf.
 From Saml Require Import Codec.Base64 Core.WireCodec Core.DecodeVia.
 From Saml Require Import Idp.BuilderTypes Idp.Builder Idp.BuiltDoc.
+From Saml Require Idp.AttrRefine.
 From Saml Require Import Xml.SchemaTypes Xml.Schema Gen.Schema Xml.SamlSpec.
 
 Definition reply_msg (r : lreply) : option lmsg := match r with LBody m => Some m | LPost _ _ m => Some m | LHttp _ => None end.
@@ -129,6 +130,16 @@ Qed.
 Theorem C13_trailing_content_refused : forall doc, lreq_of_doc true doc = None.
 Proof. exact lreq_trailing_refused. Qed.
 
+(** REFINEMENT: the abstract message of the logout model (lmsg: status, InResponseTo, issuer, destination) is what the document
+    built by the program translated from logout_response.go abstracts to, for every request ID, location and issuer *)
+Theorem C13_response_refines_model : forall reqid url issuer id1 rest issue until,
+  let M := {| lm_status := b "urn:oasis:names:tc:SAML:2.0:status:Success"; lm_in_response_to := reqid; lm_issuer := issuer; lm_destination := url |} in
+  built_sat "makeSuccessfulLogoutResponse" (Some (logout_rec reqid url issuer)) [DStr (b "f")] (id1 :: rest) issue until
+    (fun d r => r = rest /\
+       AttrRefine.opt_str (at_ d ["Status"; "StatusCode"; "Value"]%string) = lm_status M /\ AttrRefine.opt_str (at_ d ["InResponseTo"%string]) = lm_in_response_to M /\
+       AttrRefine.opt_str (at_ d ["Issuer"; "Text"]%string) = lm_issuer M /\ AttrRefine.opt_str (at_ d ["Destination"%string]) = lm_destination M).
+Proof. exact AttrRefine.logout_message_refines. Qed.
+
 Print Assumptions C13_success_iff.
 Print Assumptions C13_echo.
 Print Assumptions C13_target.
@@ -138,3 +149,4 @@ Print Assumptions C13_schema.
 Print Assumptions C13_built_response.
 Print Assumptions C13_codec.
 Print Assumptions C13_trailing_content_refused.
+Print Assumptions C13_response_refines_model.
